@@ -608,3 +608,71 @@ func isGlobalLoad(ld *ssa.UnOp) bool {
 	_, ok := ld.X.(*ssa.Global)
 	return ld.Op == token.MUL && ok
 }
+
+// loopBlocks: the blocks of the natural loop with the given header (the header and every block that
+// reaches a back edge without leaving through the header).
+func loopBlocks(header *ssa.BasicBlock) map[*ssa.BasicBlock]bool {
+	body := map[*ssa.BasicBlock]bool{header: true}
+	var stack []*ssa.BasicBlock
+	for _, p := range header.Preds {
+		if header.Dominates(p) && !body[p] {
+			body[p] = true
+			stack = append(stack, p)
+		}
+	}
+	for len(stack) > 0 {
+		b := stack[len(stack)-1]
+		stack = stack[:len(stack)-1]
+		for _, p := range b.Preds {
+			if !body[p] {
+				body[p] = true
+				stack = append(stack, p)
+			}
+		}
+	}
+	return body
+}
+
+func r10_6(c *Ctx, r *Report) {
+	const rule = "R10.6"
+	r.rule(rule, "Every candidate is tried. The loops around the verified candidate (over the candidate hours, over the candidate years) are left only through their own loop test: no block of a loop body jumps out of the loop (a break or return on a failed verification would skip the remaining candidate hours of that day — the late-rat 23:00 after a failed 00:00 — or the remaining years). A necessary condition of completeness, which is otherwise not decided.")
+	fn := reverseLookup(c, r, rule)
+	if fn == nil {
+		return
+	}
+	n := 0
+	for _, ps := range reversePushSites(c, fn) {
+		for h := ps.call.Block(); h != nil; h = h.Idom() {
+			back := false
+			for _, p := range h.Preds {
+				if h.Dominates(p) {
+					back = true
+				}
+			}
+			if !back {
+				continue
+			}
+			body := loopBlocks(h)
+			if !body[ps.call.Block()] {
+				continue
+			}
+			n++
+			var exits []string
+			for b := range body {
+				if b == h {
+					continue
+				}
+				for _, s := range b.Succs {
+					if !body[s] {
+						exits = append(exits, fmt.Sprintf("block %d -> %d (%s)", b.Index, s.Index, c.pos(b.Instrs[len(b.Instrs)-1].Pos())))
+					}
+				}
+			}
+			sort.Strings(exits)
+			r.check(len(exits) == 0, rule, fmt.Sprintf("%s: loop #%d around the append is left only by its own test", fname(ps.fn), n), c.pos(h.Instrs[len(h.Instrs)-1].Pos()), fmt.Sprintf("%d blocks; exits from inside the body: %v", len(body), exits))
+		}
+	}
+	if n < 2 {
+		r.bad(rule, "instance floor R10.6", c.fnPos(fn), fmt.Sprintf("only %d loops found around the append (the candidate hours and the candidate years)", n))
+	}
+}
